@@ -248,7 +248,9 @@ func (e *vsConnEnv) pollerBodyLT() {
 	event := func(evt uint32, label string, n int) (hup, gone bool) {
 		for {
 			r.s.guardPoint("poller.fetch", func() bool { return r.fp.registered })
-			if r.fp.deleted {
+			if r.fp.deleted || r.fp.frees > 0 {
+				// A-epoll-del: no event is fetched after EPOLL_CTL_DEL returned, nor for a descriptor that has been closed
+				// (a user Close that lost closeBy runs the finalizer without PollDetach; close(2) removes it from the set)
 				r.s.ghost("poller gone")
 				return false, true
 			}
@@ -260,7 +262,7 @@ func (e *vsConnEnv) pollerBodyLT() {
 				return done, false
 			}
 			op := r.fp.op
-			r.s.guardPoint("poller.refetch", func() bool { return atomic.LoadInt32(&op.state) != 2 })
+			r.s.guardPoint("poller.refetch", func() bool { return atomic.LoadInt32(&op.state) != 2 || r.fp.frees > 0 })
 		}
 	}
 	for _, ev := range r.sc.events {
